@@ -440,7 +440,7 @@ func drawC16Writer(t *rapid.T) caseC16 {
 	w := drawC08(t)
 	// bias to the limits: incompressible >= 64 KiB, compressible >= 2 MiB
 	if rapid.IntRange(0, 2).Draw(t, "limit") == 0 {
-		big := gen.Seg{Kind: "random", Len: rapid.IntRange(65000, 140000).Draw(t, "rlen"), Seed: rapid.Uint64().Draw(t, "rseed")}
+		big := gen.Seg{Kind: "random", Len: rapid.IntRange(65000, 140000).Draw(t, "rlen"), K: rapid.SampledFrom([]int{0, 0, 0, 226, 230, 234, 240, 248, 252, 255}).Draw(t, "alphabet"), Seed: rapid.Uint64().Draw(t, "rseed")}
 		if w.Cfg.Matcher == 0 && rapid.Bool().Draw(t, "compressible") {
 			big = gen.Seg{Kind: "zeros", Len: rapid.IntRange(2097152-10, 2097152+70000).Draw(t, "zlen")}
 			if !ev.Thorough() && rapid.IntRange(0, 3).Draw(t, "skipbig") > 0 {
